@@ -4,7 +4,7 @@ P=$1; shift
 cd /repo || exit 2
 git diff --quiet || { echo "/repo has local changes"; exit 2; }
 git apply "$P" || { echo "patch does not apply"; exit 2; }
-trap 'git -C /repo checkout -- . ' EXIT INT TERM
+trap 'git -C /repo checkout -- . ; git -C /repo clean -fdq -- trashcli' EXIT INT TERM
 cd /verif
 for c in "$@"; do
   echo "=== $c with $P"
